@@ -246,11 +246,14 @@ def _workdir() -> str:
     return _TMP
 
 
-def write_files(files: dict | None) -> None:
-    """files: name -> {"text": str} | {"bytes": [ints]}; written into this worker's scratch cwd"""
+def write_files(files: dict | None, chdir: bool = True) -> None:
+    """files: name -> {"text": str} | {"bytes": [ints]}; written into this worker's scratch directory, which is made
+    the working directory (chdir=False: the working directory is left as the code under observation left it)"""
     wd = _workdir()
-    os.chdir(wd)
+    if chdir:
+        os.chdir(wd)
     for name, c in (files or {}).items():
+        name = os.path.join(wd, name)
         d = os.path.dirname(name)
         if d:
             os.makedirs(d, exist_ok=True)
@@ -268,7 +271,7 @@ def assemble(arg: dict) -> dict:
     from a816.cpu.cpu_65c816 import RomType
     from a816.program import Program
     from harness.stub import StubWriter
-    write_files(arg.get("files"))
+    write_files(arg.get("files"), chdir=not arg.get("keep_cwd"))
     w = StubWriter()
     out = {"ok": False, "err": None, "exc": None, "calls": [], "labels": []}
     p = None
@@ -564,6 +567,11 @@ SESSION_SOURCES = {
     "fileB": {"entry": "file", "main": "dirB/main.s",
               "files": {"dirB/main.s": {"text": "*=0x008000\n.db 0xB0\nlabelb:\n.dl labelb\n"}, "dirB/defs.s": {"text": "val = 2\n"},
                         "dirB/only_b.s": {"text": "bval = 3\n.db 0xBB\n"}}},
+    # a file-API assembly from another directory that fails during emission; that directory holds files named like
+    # the ones the probes use
+    "fileFail": {"entry": "file", "main": "dirF/main.s",
+                 "files": {"dirF/main.s": {"text": "*=0x008000\n.db 1\n.dl undefined_sym_f\n"}, "dirF/lib.s": {"text": "libval = 9\n.db 0x99\n"},
+                           "dirF/blob.bin": {"bytes": [9, 9, 9]}, "dirF/t.tbl": {"text": "31=a\n32=b\n"}, "dirF/p.ips": {"bytes": _IPS}}},
     "p_fileA": {"entry": "file", "main": "dirA/main.s",
                 "files": {"dirA/main.s": {"text": "*=0x008000\n.include 'defs.s'\n.db val\n"}, "dirA/defs.s": {"text": "val = 1\n"}}},
     "p_fileC": {"entry": "file", "main": "dirC/main.s",
@@ -625,22 +633,28 @@ def global_projection() -> dict:
             if callable(val) and not isinstance(val, functools._lru_cache_wrapper):
                 continue
             g[f"{mname}.{attr}"] = hashlib.sha1(_stable(val).encode()).hexdigest()[:10]
+    # process-wide state outside the modules: the working directory (relative to the scratch directory)
+    try:
+        g["process.cwd"] = os.path.relpath(os.getcwd(), _workdir()) if _TMP else "."
+    except OSError:
+        g["process.cwd"] = "<gone>"
     return g
 
 
 def _file_assembly(s: dict) -> dict:
     """Program.assemble on a file in a sub-directory of the scratch working directory: status and output file."""
     from a816.program import Program
-    write_files(s["files"])
+    write_files(s["files"], chdir=False)
     out = {"ok": False, "err": "", "calls": [], "labels": []}
     try:
-        if os.path.exists("out.sfc"):
-            os.remove("out.sfc")
+        outp = os.path.join(_workdir(), "out.sfc")
+        if os.path.exists(outp):
+            os.remove(outp)
         p = Program()
-        st = p.assemble(s["main"], "out.sfc")
+        st = p.assemble(s["main"], outp)
         out["ok"] = st == 0
         if st == 0:
-            with open("out.sfc", "rb") as fh:
+            with open(outp, "rb") as fh:
                 out["calls"] = [[0, list(fh.read())]]
             out["labels"] = [[n, v] for n, v in p.resolver.get_all_labels()]
     except BaseException as e:  # noqa: BLE001
@@ -655,12 +669,13 @@ def _session_child(ids) -> dict:
         import script.formulas  # noqa: F401
         g0 = global_projection()
         steps = []
+        os.chdir(_workdir())      # once: the working directory is part of the process state an assembly must leave alone
         for sid in ids:
             s = SESSION_SOURCES[sid]
             if s.get("entry") == "file":
                 o = _file_assembly(s)
             else:
-                o = assemble({"src": s["src"], "files": s.get("files"), "rom": s.get("rom")})
+                o = assemble({"src": s["src"], "files": s.get("files"), "rom": s.get("rom"), "keep_cwd": True})
             import re
             # default object reprs carry a memory address: not part of the error's meaning
             err = re.sub(r" object at 0x[0-9a-fA-F]+>", " object at 0x?>", o["err"] or "")
